@@ -15,7 +15,7 @@ import numpy as np
 META = dict(
     engines=["product", "bfs"],
     technique="exhaustive enumeration of aberration symbols, symbol pairs, aliases and access paths against a generic float64 reference polynomial",
-    text="Every polar symbol alone, every pair of distinct aberration terms, dense sets, every alias via constructor kwarg / dict / attribute / "
+    text="Every polar symbol alone, every symbol given as a 2-3 value series (ensemble axis) with and without an exact zero among the values, every pair of distinct aberration terms, dense sets, every alias via constructor kwarg / dict / attribute / "
          "set_aberrations / defocus, and the rotation identity are evaluated with Aberrations and CTF on a fixed 5 x 12 (alpha, phi) sample set "
          "for 1 (quick) or 3 energies and compared with exp(-2 pi i chi / lambda) from a reference that is generated from the symbol names. A breadth-first search over setter histories on one object "
          "(16 events, depth 2 / 3) replays a dict model in lock-step and requires kernel, coefficient dict and alias reads to agree after every step.",
@@ -74,6 +74,17 @@ def check(ctx):
                 cases.append({"kind": "kernel", "cls": cls, "energy": e, "coef": coef})
             for delta in (0.2, 1.0):
                 cases.append({"kind": "rotation", "energy": e, "coef": coef, "delta": delta})
+    # one coefficient given as a SERIES (ensemble axis), with and without an exact zero among its values: member k is the kernel of value k
+    for s in T:
+        n, m = nm(s)
+        for ser in ([-1.0, 0.0, 1.0], [0.0, 1.0], [0.5, 1.0], [0.0, 0.0]):
+            fixed = {"phi%d%d" % (n, m): 0.3} if m else {}
+            for cls in ("Aberrations", "CTF"):
+                cases.append({"kind": "series", "cls": cls, "energy": 100e3, "symbol": s, "values": [v * 0.4 * SCALE[n] for v in ser], "fixed": fixed})
+        if m:
+            for ser in ([-0.4, 0.0, 0.4], [0.0, 0.7]):
+                for cls in ("Aberrations", "CTF"):
+                    cases.append({"kind": "series", "cls": cls, "energy": 100e3, "symbol": "phi%d%d" % (n, m), "values": ser, "fixed": {s: 0.4 * SCALE[n]}})
     for alias, sym in polar_aliases.items():
         for how in ("kwarg", "dict", "attr", "set_aberrations"):
             for cls in ("Aberrations", "CTF"):
@@ -235,6 +246,25 @@ def run_case(case):
             bad("kernel/value/%s" % (syms if len(syms) < 12 else "dense"), "%s(%r) at alpha=%.4g phi=%.4g: got %r, reference %r (|d|=%.3g)" % (
                 case["cls"], coef, a[i], p[i], complex(k[i]), complex(ref[i]), e))
         return {"viol": viol, "obs": "%.3g" % float(np.abs(np.angle(ref)).max()), "err": e / TOL, "tr": 1}
+    if case["kind"] == "series":
+        obj = getattr(T, case["cls"])(energy=case["energy"], **{case["symbol"]: np.array(case["values"], dtype=float)}, **case["fixed"])
+        a, p = grids()
+        k = np.asarray(obj._evaluate_from_angular_grid(a, p))
+        if k.shape != (len(case["values"]),) + a.shape:
+            bad("series/shape", "kernel shape %r for a %d-value series of %s" % (k.shape, len(case["values"]), case["symbol"]))
+            return {"viol": viol}
+        worst = 0.0
+        for i, v in enumerate(case["values"]):
+            coef = dict(case["fixed"])
+            coef[case["symbol"]] = v
+            ref = R.kernel(coef, a.astype(np.float64), p.astype(np.float64), R.wavelength(case["energy"]))
+            e = float(np.abs(k[i] - ref).max())
+            worst = max(worst, e)
+            if not e <= TOL:
+                bad("series/member-value", "%s with %s = series %r: member %d (value %r) differs from the kernel of that value by %.3g" % (
+                    case["cls"], case["symbol"], case["values"], i, v, e))
+                break
+        return {"viol": viol, "obs": "series", "err": worst / TOL, "tr": len(case["values"]), "nt": any(case["values"])}
     if case["kind"] == "rotation":
         coef = case["coef"]
         d = case["delta"]
